@@ -9,7 +9,7 @@ from .. import gen, ref, snap
 from ..core import FAILED
 
 DECIDING = ["O1:classical=bruteforce", "O2:cl<=NPA", "O2:qlb<=NPA", "O2:NPA-monotone", "O2:NPA<=NS", "O2:NS<=1", "O2:explicit-strategy<=NPA",
-            "O3:product-game", "O4:bcs-game", "O5:order-independent", "O5:game-unchanged", "O1:classical-pooled", "O3:odometer"]
+            "O2:values-scale-with-predicate", "O3:product-game", "O4:bcs-game", "O5:order-independent", "O5:game-unchanged", "O1:classical-pooled", "O3:odometer"]
 RULE = ("games with answer/question alphabet sizes drawn independently from 1..3 (thorough 1..4), 0/1 and fractional predicates, uniform/biased/"
         "sparse question distributions; structured games with a classical/quantum gap (XOR- and mod-3-type predicates, CHSH, odd cycle, FFL) for the "
         "orderings; a signature is (monitor, A, B, X, Y, predicate kind, support pattern) and is non-trivial when A != B or X != Y or the game has a "
@@ -89,12 +89,17 @@ def rand_prob(rng, x, y):
     return p, kind
 
 
-def rand_game(rng, hi=3):
+def rand_game(rng, hi=3, kind=None):
     a, b, x, y = (int(v) for v in rng.integers(1, hi + 1, size=4))
     prob, pk = rand_prob(rng, x, y)
     frac = bool(rng.integers(0, 2))
+    if kind is not None:
+        frac = kind != "01"
     pred = rng.random((a, b, x, y)) if frac else (rng.random((a, b, x, y)) < rng.choice([0.3, 0.5, 0.7])).astype(float)
-    return prob, pred, (a, b, x, y, "frac" if frac else "01", pk)
+    if kind == "mixed":  # some entries exactly 0 or 1, the others strictly between
+        pin = rng.random((a, b, x, y))
+        pred = np.where(pin < 0.3, 0.0, np.where(pin < 0.6, 1.0, pred))
+    return prob, pred, (a, b, x, y, (kind or "frac") if frac else "01", pk)
 
 
 def gap_game(rng, r):
@@ -387,12 +392,13 @@ def _run_sdp(ctx, spec, rng):
     from toqito.nonlocal_games.nonlocal_game import NonlocalGame
 
     if spec[1] % 3 == 2:
-        prob, pred, shp = rand_game(rng, 3)
-        name = "random"
+        pk = ["frac", "01", "mixed"][(spec[1] // 3) % 3]
+        prob, pred, shp = rand_game(rng, 3, kind=pk)
+        name = "random-" + pk
     else:
         prob, pred, name = gap_game(rng, spec[1])
     base_npa1 = None
-    if name != "random" and spec[1] % 2 == 1:
+    if not name.startswith("random") and spec[1] % 2 == 1:
         # the same game in disguise (relabelled answers, padded with never-winning answers): unequal alphabets whose useful
         # answers sit at arbitrary indices; NPA level 1 must not change
         ctx.evals["solver-call"] += 1
@@ -434,6 +440,18 @@ def _run_sdp(ctx, spec, rng):
     if base_npa1 is not None and npa.get(1) is not None:
         ctx.check("O2:NPA-invariant-under-relabelling", abs(npa[1] - base_npa1) <= TOL, dev=abs(npa[1] - base_npa1), tol=TOL, sig=sig, nt=True,
                   mech="npa:changes-under-answer-relabelling-or-padding", detail=dict(det, npa1_of_original_game=base_npa1))
+    if not name.startswith("random") and spec[1] % 2 == 0 and npa.get(1) is not None:
+        # the same game with every winning entry worth c in (0, 1): all values scale by c
+        c = float(rng.choice([0.5, 0.25, 0.8]))
+        scaled = NonlocalGame(prob.copy(), c * pred)
+        v_c = _solve(ctx, scaled.commuting_measurement_value_upper_bound, 1)
+        cl_c = ctx.call(scaled.classical_value)
+        if v_c is not None:
+            ctx.check("O2:values-scale-with-predicate", abs(v_c - c * npa[1]) <= TOL, dev=abs(v_c - c * npa[1]), tol=TOL, sig=sig + ("npa1", c), nt=True,
+                      mech="npa:does-not-scale-with-fractional-predicate", detail=dict(det, c=c, npa1_scaled_game=v_c))
+        if cl_c is not FAILED:
+            ctx.check("O2:values-scale-with-predicate", abs(cl_c - c * cl_ref) <= 1e-9, dev=abs(cl_c - c * cl_ref), tol=1e-9, sig=sig + ("classical", c), nt=True,
+                      mech="classical_value:does-not-scale-with-fractional-predicate", detail=dict(det, c=c, classical_scaled_game=cl_c))
     order = [k for k in (1, "1+ab", 2) if npa.get(k) is not None]
     for k1, k2 in zip(order, order[1:]):
         ctx.check("O2:NPA-monotone", npa[k2] <= npa[k1] + TOL, dev=max(0.0, npa[k2] - npa[k1]), tol=TOL, sig=sig + (str(k1), str(k2)), nt=nt,
